@@ -47,6 +47,7 @@ FUNCS = [
     ("ubxmessage.py", "UBXMessage._set_attribute_group"), ("ubxmessage.py", "UBXMessage._set_attribute_single"),
     ("ubxmessage.py", "UBXMessage._do_attributes"), ("ubxmessage.py", "UBXMessage._get_dict"),
     ("ubxmessage.py", "UBXMessage.identity"), ("ubxmessage.py", "UBXMessage.__init__"),
+    ("ubxmessage.py", "UBXMessage.__setattr__"), ("ubxmessage.py", "UBXMessage.__delattr__"),
 ]
 
 
